@@ -675,7 +675,7 @@ func c05R4(p *core.Program, r *core.Report) {
 		}
 		r.Bad("R4", key, p.Pos(cs.Pos()), "template evaluated without truncation (truncate is not the constant true) by a caller that is not listed")
 	}
-	r.Require("evaluatetemplatetext_sites", nE, 3)
+	r.Require("evaluatetemplatetext_sites", nE, 2)
 	// (d) evaluateMessage: quick replies and attachments
 	em := p.Method("flows/actions", "baseAction", "evaluateMessage")
 	if em == nil {
